@@ -102,6 +102,20 @@ func ssaText(eng *Engine) map[string]string {
 	for _, fn := range eng.repoFuncs() {
 		var b strings.Builder
 		fn.WriteTo(&b)
+		// the printed form abbreviates long string constants: add them in full
+		for _, blk := range fn.Blocks {
+			for _, in := range blk.Instrs {
+				for _, op := range in.Operands(nil) {
+					if op == nil || *op == nil {
+						continue
+					}
+					if c, ok := (*op).(*ssa.Const); ok && c.Value != nil {
+						b.WriteString(c.Value.ExactString())
+						b.WriteByte('\n')
+					}
+				}
+			}
+		}
 		out[fn.String()] = b.String()
 	}
 	return out
